@@ -9,6 +9,7 @@ import (
 	"io"
 	"os"
 	"strconv"
+	"strings"
 
 	"go.uber.org/thriftrw/internal/zzsim/ref"
 	"go.uber.org/thriftrw/internal/zzsim/simrt"
@@ -458,6 +459,39 @@ func scriptedRun(sc *Script, log *PlugLog, stdin io.Reader, stdout io.Writer) in
 }
 
 // buildReply builds the reply envelope payload for a step.
+// wrongName gives one of several names that are not the expected one: unrelated,
+// differing in letter case only, with a trailing blank, cut short, empty.
+func wrongName(name string, variant int) string {
+	switch variant % 6 {
+	case 1:
+		return strings.ToUpper(name)
+	case 2:
+		return name + " "
+	case 3:
+		return name[:len(name)-1]
+	case 4:
+		return ""
+	case 5:
+		return strings.ToUpper(name[:1]) + name[1:]
+	}
+	return "not-" + name
+}
+
+// wrongVersion gives an API version other than the expected one.
+func wrongVersion(v int32, variant int) int32 {
+	switch variant % 5 {
+	case 1:
+		return v - 1
+	case 2:
+		return 0
+	case 3:
+		return -v
+	case 4:
+		return v + 256
+	}
+	return v + 1
+}
+
 func buildReply(sc *Script, st Step, k ActKind, req ref.Envelope) []byte {
 	env := ref.Envelope{Name: req.Name, Type: ref.Reply, SeqID: req.SeqID, Strict: true}
 	switch k {
@@ -474,10 +508,10 @@ func buildReply(sc *Script, st Step, k ActKind, req ref.Envelope) []byte {
 		name := sc.Name
 		version := int32(APIVersion)
 		if k == ActWrongName {
-			name = "not-" + sc.Name
+			name = wrongName(sc.Name, sc.Steps[st].N)
 		}
 		if k == ActWrongVersion {
-			version++
+			version = wrongVersion(version, sc.Steps[st].N)
 		}
 		var feats []ref.Val
 		if !sc.NoSG {
